@@ -73,7 +73,7 @@ chain_ranges = SpecSeq('chain_ranges', [PFBI, PFI], lambda b, p, k: z3.Unit(mrd_
 multi_fn = z3.Function('multi_range_potential', RDL, Fn)        # the Multi_Range_Potential_Form over these ranges (C08: selects the range containing r)
 REG.add(Contract(F_MR, 'create_Multi_Range_Potential_Form', params=[('range_tuples', T.List(T.Obj('Multi_Range_Defn')))], result=T.Fn,
     ensures=lambda v, old, res: [res == multi_fn(v.range_tuples)], trusted=True,
-    note='returns the multi-range potential over the given ranges (class chosen by the derivatives offered: structural contract in C08; its __call__/deriv/deriv2 and _range_search are verified in C08)', props=['C08', 'C09']))
+    note='call sites name the result multi_fn(ranges): the multi-range potential over the given ranges. What the function builds is verified under its second contract create_Multi_Range_Potential_Form@construction (contracts/multirange.py: class by the derivatives offered, default value 0.0, exactly the given ranges in canonical order); __call__/deriv/deriv2 and _range_search of the three classes are verified in C08. Assumed here: only that the result is a function of the list of ranges (the function reads nothing else)', props=['C08', 'C09']))
 
 def _cpf_inv(v, old):
     p, k = old.potential_form_instance, v._i0
